@@ -3,15 +3,22 @@
    [assign_weights] transcribes AssignWeights statement by statement with the depth-first start order as
    an argument (Model/WWeights.v); the correspondence runs it against the implementation (hooked to take
    the same order) on every model of every run, cyclic ones included.
-   Proved for all inputs: what each of the three strategies computes from the operand edges (any number
-   of edges and types), that this is what the strategy functions store, and the edge rule for terminal
-   targets.  The global statement — on every accepted model every node carries the least-fixed-point
-   depths of Spec/Weights.v — is NOT proved (the invariant of the depth-first traversal was not
-   mechanised in the time available; see DESIGN.md); it is refuted outside the domain "every operand of an intersection/exclusion is one distinct edge, model
-   well-founded" by the witnesses 6-7 (known findings K-C04-operands, K-WG-cycles), and on the rest it is
-   checked on every run by the oracle of run/lib/graphspec.py against the implementation. *)
+   Proved for all inputs: (a) what each of the three strategies computes from the operand edges (any number
+   of edges and types) and that this is what the strategy functions store; (b) THE GLOBAL STATEMENT FOR
+   GRAPHS WITHOUT CYCLES (8-10 below): whenever weight assignment succeeds on a graph that has a rank
+   function decreasing along every edge, every node it reached carries exactly Spec/GraphWeights.spec_weights
+   — the order-free definition "weight map of a node = strategy of its kind over its edges' maps, an edge
+   adds one hop if it is a direct or tuple-to-userset edge, an edge to a type or wildcard is that type at
+   depth 1" — for EVERY depth-first start order (invariant of the traversal: Proofs/DagWeights.v).  The
+   hypothesis is decidable ([dag_check]) and is evaluated, together with the specification itself, by the
+   extracted model on every generated model of every run and compared with what the implementation stored.
+   NOT proved: the same for graphs with tuple cycles (placeholders and their resolution), and that the
+   graph-level specification equals the model-level definition of Spec/Weights.v (an operand = a child of
+   the rewrite): they differ exactly where one operand is several edges (witness 6, known finding
+   K-C04-operands); on cyclic models that are not well-founded the statement is refuted (witness 7,
+   K-WG-cycles).  Those regions are decided on every run by the oracle of run/lib/graphspec.py. *)
 From Verif Require Import Base.Str Base.Outcome Model.Ast Model.Printer Model.WGraph Model.WWeights Spec.Weights
-  Proofs.StrategyProofs Proofs.WeightsProofs Proofs.Witnesses.
+  Spec.GraphWeights Proofs.StrategyProofs Proofs.WeightsProofs Proofs.Witnesses Proofs.GraphPrims Proofs.DagWeights Proofs.DagCheck.
 
 (* 1. union and plain relations: a type is present iff some operand edge has it, with the largest weight *)
 Theorem C04_union_strategy : forall ws k,
@@ -66,3 +73,28 @@ Proof. split; [exact m_operands_spec|exact m_operands_rejected]. Qed.
 Theorem C04_empty_weights_refuted :
   exists g, build_weighted None m_empty = Ok g /\ n_weights (node_of g (lit "doc#c")) = [].
 Proof. exact m_empty_accepted. Qed.
+
+(* 8. graphs without cycles, any start order: the weights are the order-free specification.  [ranked_by g rank]:
+      every edge leads to a node of strictly smaller rank (no cycle of any kind); [terminals_not_placeholders]:
+      no type is named like a tuple-cycle placeholder ("R#..."); [unweighted]: the builder's output state. *)
+Theorem C04_acyclic_graph_weights : forall g0 rank order g',
+  ranked_by g0 rank -> terminals_not_placeholders g0 -> unweighted g0 ->
+  assign_weights order g0 = Ok g' ->
+  forall x, In x order -> is_terminal (n_type (node_of g0 x)) = false ->
+    n_weights (node_of g' x) = gs g0 rank x /\
+    map ev (edges_from g' x) = map (fun e => (eshape e, ew g0 rank (eshape e))) (edges_from g0 x).
+Proof. exact dag_weights. Qed.
+
+(* 9. the same from the model, hypotheses discharged by evaluation of [dag_check] on the built graph *)
+Theorem C04_acyclic_model_weights : forall m g o g',
+  wbuild m = Ok g -> dag_check g = true -> build_weighted o m = Ok g' ->
+  forall x, In x (order_used o g) -> is_terminal (n_type (node_of g x)) = false ->
+    n_weights (node_of g' x) = spec_weights g x.
+Proof. exact acyclic_model_weights. Qed.
+
+(* 10. the hypothesis is satisfiable (and the model accepted), the graph-level specification coincides with the
+       model-level definition there, and the refutation witnesses lie outside the domain *)
+Theorem C04_acyclic_domain_inhabited :
+  in_dag_domain m_good = true /\ is_ok (build_weighted None m_good) = true /\
+  in_dag_domain m_order = false /\ in_dag_domain m_empty = false.
+Proof. split; [apply m_good_in_domain|]. split; [apply m_good_in_domain|]. split; [exact m_order_outside_domain|exact m_empty_outside_domain]. Qed.
